@@ -19,6 +19,10 @@ class PathLimit(Exception):
     pass
 
 
+class NonTermination(PathLimit):
+    pass
+
+
 # ---------------------------------------------------------------- values
 
 class Agg:
@@ -245,6 +249,7 @@ class VM:
         self.funcs = funcs
         self.enums = enums                   # enum name -> [variant names]
         self.solver = z3.Solver()
+        self.solver.set('timeout', 15000)
         self.queries = 0
         self.solver_time = 0.0
         self.max_paths = max_paths
@@ -257,6 +262,7 @@ class VM:
         self.used_functions = set()
         self.used_summaries = set()
         self.recursion_hook = None           # called with (state, fn, args) on calls
+        self.loop_watch = []                 # substrings of function names whose re-entry is checked for non-termination
         for name, f in funcs.items():
             if f.is_const:
                 self.consts[name] = f
@@ -394,13 +400,38 @@ class VM:
                 iv = self.load(st, Ptr(fr.locals[pj[1]], ()))
                 iv = simp(iv)
                 if not z3.is_bv_value(iv):
-                    raise Unsupported('symbolic index projection')
-                ptr = self.index_ptr(st, ptr, iv.as_long())
+                    ptr = self.symbolic_index(st, ptr, iv)
+                else:
+                    ptr = self.index_ptr(st, ptr, iv.as_long())
             elif k == 'constindex':
                 ptr = self.index_ptr(st, ptr, pj[1], pj[2])
             else:
                 raise Unsupported(f'projection {pj}')
         return ptr
+
+    def symbolic_index(self, st, ptr, iv):
+        """element at a symbolic index of an array of strings / scalars: a read-only if-then-else value"""
+        if ptr.meta and ptr.meta[0] == 'slice':
+            n = ptr.meta[2]
+        else:
+            c = self.load(st, ptr)
+            n = len(c.items) if isinstance(c, VecV) else len(c.fields)
+        elems = [self.load(st, self.index_ptr(st, ptr, i)) for i in range(n)]
+        if not elems:
+            raise Unsupported('symbolic index into empty array')
+        if all(isinstance(e, StrV) for e in elems):
+            expr = elems[-1].z()
+            for i in reversed(range(n - 1)):
+                expr = z3.If(iv == bv(i, iv.size()), elems[i].z(), expr)
+            val = StrV(expr)
+        elif all(z3.is_expr(e) for e in elems):
+            expr = elems[-1]
+            for i in reversed(range(n - 1)):
+                expr = z3.If(iv == bv(i, iv.size()), elems[i], expr)
+            val = expr
+        else:
+            raise Unsupported('symbolic index into an array of aggregates')
+        return Ptr(st.alloc(val), ())
 
     def index_ptr(self, st, ptr, i, from_end=False):
         if ptr.meta and ptr.meta[0] == 'slice':
@@ -507,7 +538,8 @@ class VM:
                     st.mem[c] = v
             return cache[cf.name][0]
         sub = State()
-        sub.next_cell = 10_000_000 + 1000 * len(cache)
+        self._const_base = getattr(self, '_const_base', 10_000_000) + 1000
+        sub.next_cell = self._const_base
         fr = Frame(cf, {}, None, None)
         sub.frames.append(fr)
         outs = self.run(sub, limit_paths=4)
@@ -698,7 +730,7 @@ class VM:
                 return plain[0]
         if self_ty is not None and impls:
             st_base = _base_type(self_ty)
-            good = [f for f in impls if f.params and _base_type(f.params[0][1]) == st_base]
+            good = [f for f in impls if (f.params and _base_type(f.params[0][1]) == st_base) or (not f.params and _base_type(f.ret) == st_base)]
             if len(good) == 1:
                 return good[0]
             if len(good) > 1:
@@ -720,10 +752,46 @@ class VM:
         m = re.search(r'<impl at ([^>]*)>', f.name)
         return self.impl_traits.get(m.group(1)) if m and hasattr(self, 'impl_traits') else None
 
+    def freeze(self, st, v, depth=6):
+        """hashable snapshot of a value with pointers followed (bounded)"""
+        if depth == 0:
+            return '...'
+        if isinstance(v, Ptr):
+            try:
+                tgt = self.load(st, v)
+            except Exception:
+                return ('ptr', v.cell, v.path)
+            if v.meta:
+                return ('slice', v.meta, self.freeze(st, tgt, depth - 1))
+            return ('ref', self.freeze(st, tgt, depth - 1))
+        if isinstance(v, Agg):
+            return ('agg', v.variant, tuple(self.freeze(st, x, depth - 1) for x in v.fields))
+        if isinstance(v, SymEnum):
+            return ('sym', v.discr.sexpr(), tuple((k, tuple(self.freeze(st, x, depth - 1) for x in f)) for k, f in sorted(v.cases.items())))
+        if isinstance(v, VecV):
+            return ('vec', tuple(self.freeze(st, x, depth - 1) for x in v.items))
+        if isinstance(v, StrV):
+            return ('str', v.s if isinstance(v.s, str) else v.s.sexpr())
+        if isinstance(v, Opaque):
+            return ('opaque', v.tag, tuple(self.freeze(st, x, depth - 1) for x in v.data) if isinstance(v.data, tuple) else repr(v.data))
+        if isinstance(v, ClosureV):
+            return ('clo', v.cid, tuple(self.freeze(st, x, depth - 1) for x in v.fields))
+        if z3.is_expr(v):
+            return ('z3', v.sexpr())
+        return repr(v)
+
     def push_call(self, st, fn, argvals, dest, ret_bb):
         if len(st.frames) >= self.max_depth:
             raise PathLimit(f'call depth {self.max_depth} exceeded in {fn.name}')
+        if self.loop_watch and any(w in fn.name for w in self.loop_watch):
+            key = (fn.name, tuple(self.freeze(st, a) for a in argvals))
+            for fr0 in st.frames:
+                if isinstance(fr0, Frame) and fr0.depth_key == key:
+                    raise NonTermination(f'{fn.name} re-entered with the same arguments and the same reachable state: the recursion cannot terminate')
+        else:
+            key = None
         fr = Frame(fn, {}, dest, ret_bb)
+        fr.depth_key = key
         for (idx, _ty), v in zip(fn.params, argvals):
             fr.locals[idx] = st.alloc(v)
         st.frames.append(fr)
@@ -764,6 +832,11 @@ class VM:
 
     def call_named(self, st, callee, argvals, dest, ret_bb):
         """returns None (continue in st) or a list of forked states"""
+        # std's blanket `impl PartialEq<&B> for &A`: compare the referents
+        mref = re.match(r"^<&(?:'\w+ )?(?:mut )?(.+) as PartialEq(?:<&(?:'\w+ )?(?:mut )?(.+)>)?>::(eq|ne)$", callee)
+        if mref and all(isinstance(a, Ptr) for a in argvals):
+            inner = f'<{mref.group(1)} as PartialEq>::{mref.group(3)}'
+            return self.call_named(st, inner, [self.load(st, a) for a in argvals], dest, ret_bb)
         fn = self.resolve_local(callee, argvals)
         if fn is not None:
             self.push_call(st, fn, argvals, dest, ret_bb)
@@ -802,6 +875,9 @@ class VM:
                 continue
             try:
                 res = self.run_path(st, work)
+            except NonTermination as e:
+                outs.append(Outcome('loop', st, msg=str(e)))
+                continue
             except PathLimit as e:
                 outs.append(Outcome('limit', st, msg=str(e)))
                 continue
